@@ -91,7 +91,8 @@ static int check_value(int ty, uint64_t v)
         if (ty == 32) { drc = varint_decode_u32(&d, &o32); o64 = o32; } else drc = varint_decode_u64(&d, &o64);
         if (drc != rc || o64 != v || d.offset != (size_t)rc) bad |= 8;
         Arr a = { x, (size_t)rc, 0 };
-        Source src = OCTET_SOURCE_INIT(arr_octet, &a);
+        Source src; FlavOSource fo;
+        flav_osource_init(&src, &fo, arr_octet, &a, harness_flavour & 1);
         o64 = 0; o32 = 0;
         if (ty == 32) { drc = varint_u32_from_source(&src, &o32); o64 = o32; } else drc = varint_u64_from_source(&src, &o64);
         if (drc != rc || o64 != v || a.pos != (size_t)rc) bad |= 16;
@@ -141,7 +142,9 @@ void adapter_exec(Ev *ev)
         if (rc >= 0) groups(ev, u, m);
         /* source decoder */
         Arr a = { blk, n, 0 }, a2 = { blk, n, 0 };
-        Source src = OCTET_SOURCE_INIT(arr_octet, &a), src2 = OCTET_SOURCE_INIT(arr_octet, &a2);
+        Source src, src2; FlavOSource fo, fo2;
+        flav_osource_init(&src, &fo, arr_octet, &a, harness_flavour & 1);
+        flav_osource_init(&src2, &fo2, arr_octet, &a2, harness_flavour & 1);
         u = s = 0; u32 = 0; s32 = 0; s64 = 0;
         if (ty == 32) {
             rc = varint_u32_from_source(&src, &u32); rc2 = varint_s32_from_source(&src2, &s32);
@@ -168,7 +171,8 @@ void adapter_exec(Ev *ev)
         byte_buffer_space(&b, blk, max);
         int rc; size_t lq;
         Cap cap = { {0}, 0 };
-        Sink snk = CHUNK_SINK_INIT(cap_chunk, &cap);
+        Sink snk; FlavSink fk;
+        flav_sink_init(&snk, &fk, cap_chunk, &cap, harness_flavour >> 1);
         int src;
         if (ty == 32 && !sg) { rc = varint_encode_u32(&b, (uint32_t)v); lq = varint_u32_length((uint32_t)v); src = varint_u32_to_sink(&snk, (uint32_t)v); }
         else if (ty == 32) { rc = varint_encode_s32(&b, (int32_t)(uint32_t)v); lq = varint_s32_length((int32_t)(uint32_t)v); src = varint_s32_to_sink(&snk, (int32_t)(uint32_t)v); }
